@@ -9,6 +9,9 @@
 (*           SatSet by MC_Satisfier) produces has at most `c` elements and *)
 (*           at most `w` witness bytes / `s` scriptSig bytes, and a        *)
 (*           satisfaction exists only if the figures do                    *)
+(*   Weight  under every output type of the context, the weight such a     *)
+(*           witness adds to the input is at most the descriptor-level     *)
+(*           max_weight_to_satisfy                                         *)
 (***************************************************************************)
 EXTENDS ExtData, Satisfier, AstGen, Verify, Json, IOUtils
 
@@ -33,9 +36,24 @@ JudgeOne(m, e, w) ==
             THEN SsigBytes(g.w, 1, "legacy") <= e.sat.s \/ Report("scriptsig_bytes_exceed_figure", m, <<g.w, e.sat.s>>)
             ELSE WitBytes(g.w, 1, RulesOf(Ctx)) <= e.sat.w \/ Report("witness_bytes_exceed_figure", m, <<g.w, e.sat.w>>)))
 
+\* the weight a witness of the satisfier model adds to the input under an output type (worst-case
+\* signature sizes), to be bounded by the descriptor-level figure
+WrapsOfCtx == CASE Ctx = "bare" -> {"bare"} [] Ctx = "legacy" -> {"sh"} [] Ctx = "segwitv0" -> {"wsh", "shwsh"} [] OTHER -> {"tr"}
+WeightOf(wrap, st, pk) ==
+  LET wsh == (EDVarintLen(Len(st) + 1) - 1) + WitBytes(st, 1, "segwitv0") + EDVarintLen(pk) + pk IN
+  CASE wrap = "bare" -> LET ss == SsigBytes(st, 1, "legacy") IN 4 * ((EDVarintLen(ss) - 1) + ss)
+    [] wrap = "sh" -> LET ss == SsigBytes(st, 1, "legacy") + EDPushOpLen(pk) + pk IN 4 * ((EDVarintLen(ss) - 1) + ss)
+    [] wrap = "wsh" -> wsh
+    [] wrap = "shwsh" -> 4 * 35 + wsh
+    [] wrap = "tr" -> (EDVarintLen(Len(st) + 2) - 1) + WitBytes(st, 1, "tap") + EDVarintLen(pk) + pk + 1 + 33
+JudgeWeight(m, e, w) ==
+  \A g \in {LSat(m, w, Ctx, FALSE), LSat(m, w, Ctx, TRUE)} : \A wrap \in WrapsOfCtx :
+    g.k # "st" \/ WeightOf(wrap, g.w, e.pk) <= DescMaxWeight(wrap, m, Ctx, 0)
+    \/ Report("weight_exceeds_descriptor_figure", m, <<wrap, g.w, WeightOf(wrap, g.w, e.pk), DescMaxWeight(wrap, m, Ctx, 0)>>)
+
 Inv == i > 0 =>
   \A e \in {Ext(Frags[i], Ctx)} :
     /\ (e.pk = ByteLen(Encode(Frags[i], Ctx)) \/ Report("script_size_differs", Frags[i], <<e.pk, ByteLen(Encode(Frags[i], Ctx))>>))
-    /\ \A w \in WorldsOf(Frags[i]) : JudgeOne(Frags[i], e, w)
+    /\ \A w \in WorldsOf(Frags[i]) : JudgeOne(Frags[i], e, w) /\ JudgeWeight(Frags[i], e, w)
 Post == PrintT("MC_DONE " \o ToJson(<<Len(Frags), TLCGet("stats").distinct>>))
 =============================================================================
